@@ -40,7 +40,7 @@ PROPS = {
                 coq=['props/C07.vo'], tags=[7],
                 streams=[('w1', 'S6', 50, 60), ('w2', 'S6', 25, 60)], configs=['dbg', 'rel'], need=['iterd', 'create']),
     'C08': dict(title='No handle is ever issued twice within a world',
-                coq=['props/C08.vo'], tags=[8],
+                coq=['props/C08.vo'], macro=dict(cases=120, stress=True), tags=[8],
                 streams=[('w1', 'S7', 40, 60), ('w1', 'S1', 20, 60), ('w2', 'S7', 20, 60)],
                 configs=['dbg', 'rel-plain'], need=['create', 'destroy']),
     'C09': dict(title='A direct handle never designates another entity and dies with any removal',
